@@ -970,6 +970,9 @@ func classifyPath(c PathCase) (bool, []string) {
 	qs := map[int]bool{}
 	for _, st := range c.Steps {
 		qs[st.Q] = true
+		if ic := indexClass(st.K); ic != "" && st.Q <= 1 {
+			cls[ic] = true
+		}
 		cls[[]string{"spell:dotted", "spell:[n]", "spell:['k']", "spell:[\"k\"]"}[st.Q&3]] = true
 	}
 	if len(qs) > 1 {
@@ -1137,6 +1140,12 @@ func TestProp(t *testing.T) {
 	pn, pok := enumPaths(rec, known, run.Pick(3, 4), shard, shards)
 	if pok {
 		rec.Exhaustive(fmt.Sprintf("all paths of <= %d steps (valid and invalid continuations, 4 spellings, %d bindings in rotation) over %d zoo values (%d paths)", run.Pick(3, 4), len(binds), len(zoo()), pn))
+	}
+
+	// ---- family 2, boundary indexes: lists of boundary lengths x indexes around the list's end and
+	// around every power of two at which an integer type wraps.
+	if bn, bok := enumBigIdx(rec, shard, shards); bok {
+		rec.Exhaustive(fmt.Sprintf("every boundary index (len-2..len+1, 2^w-1, 2^w+k for w in 8,16,31,32,63,64 and k in range, 10^30, negatives) on lists of length %v, spelled a.N and a[N], at the top / below a map key / inside a list / in a struct field (%d cases)", bigLens, bn))
 	}
 
 	// ---- family 1b: several stacks over one caller-owned root map
